@@ -36,7 +36,7 @@ ASSUMPTIONS = [
 ]
 
 NP = NotPassed()
-LITERALS = [None, False, True, 0, 1, -1, 1.5, 0.0, "", "a", 'q"uote', "it's", "back\\slash", "new\nline", "é☕", "{x}", [], [1], [None, False, ""], [[1], {"a": [True]}], {}, {"a": 1}, {"a": {"b": [1, None]}}, {"default": 1}, {"'": '"'}]
+LITERALS = [None, False, True, 0, 1, -1, 1.5, 0.0, 10 ** 400, -(2 ** 1024), 1e308, [10 ** 400], "", "a", 'q"uote', "it's", "back\\slash", "new\nline", "é☕", "{x}", [], [1], [None, False, ""], [[1], {"a": [True]}], {}, {"a": 1}, {"a": {"b": [1, None]}}, {"default": 1}, {"'": '"'}]
 
 
 def literal_elements():
@@ -84,6 +84,11 @@ def nested_elements():
         ("AnyOf(classes)", lambda: AnyOf(E._cls_plain(), E._cls_renamed(), default={"b": "s"})),
         ("Element(properties class)", lambda: Element(properties={"o": Property(E._cls_nested(), required=True)}, additionalProperties=E._cls_plain())),
         ("Not(class)", lambda: Not(E._cls_plain())),
+        ("Element(huge bounds)", lambda: Element(minimum=10 ** 400, maximum=-(10 ** 400), multipleOf=2 ** 1024)),
+        ("Integer(default huge)", lambda: Integer(default=10 ** 400, exclusiveMaximum=10 ** 400)),
+        ("Element(default dict omitting a declared property)", lambda: Element(default={"verbose": True}, properties={"verbose": Property(Boolean()), "level": Property(Integer()), "x_tag": Property(String(), source="x-tag")})),
+        ("Outer(optional Element with dict default)", lambda: Element(properties={"opts": Property(Element(default={"verbose": True}, properties={"verbose": Property(Boolean()), "level": Property(Integer(default=2))}))})),
+        ("Array(default list of dicts)", lambda: Array(Element(properties={"k": Property(Integer(default=1))}), default=[{}, {"k": 2}])),
         ("Element(all numeric)", lambda: Element(minimum=0, maximum=1.5, exclusiveMinimum=-1, exclusiveMaximum=2, multipleOf=0.5)),
         ("Element(all falsy)", lambda: Element(minimum=0, minItems=0, minLength=0, minProperties=0, maxItems=0, const=0, default=0, pattern="", format="")),
     ]
@@ -169,7 +174,6 @@ def threaded_repr(st, shard=None):
 def namespace(x):
     ns = {name: getattr(elements_mod, name) for name in ("AllOf", "AnyOf", "Array", "Boolean", "Element", "Integer", "Not", "Nothing", "Null", "Number", "Object", "OneOf", "String")}
     ns["Property"] = Property
-    ns["NotPassed"] = NotPassed
     roots = [x] if not isinstance(x, _Property) else [x.element]
     for r in roots:
         for el in [r] + list(get_children(r)):
@@ -235,6 +239,20 @@ def check_element(st, label, factory, rank=0):
     except SyntaxError:
         pass
     st.outcome("rebuilds" if eq else "differs")
+    # the repr must still be the rebuilding expression after the element has been used (a validation that leaves markers
+    # or other debris in a literal shows up as a repr that no longer evaluates)
+    if eq and not isinstance(x, ObjectMeta):
+        for v in (NP, {}, {"opts": {}}, [], 1, "a", {"verbose": False}):
+            impl.do_call(x, v)
+        try:
+            text2 = repr(x)
+            y2 = eval(text2, namespace(x))
+            if not (y2 == x):
+                st.violation("repr-after-use-does-not-rebuild", "%s: after some validations repr is %s, which does not rebuild the element" % (label, text2[:200]), {**case, "repr_after_use": text2[:600]}, rank)
+            elif text2 != text:
+                st.violation("repr-changed-by-use", "%s: repr before use %s, after use %s" % (label, text[:150], text2[:150]), {**case, "repr_after_use": text2[:600]}, rank)
+        except Exception as exc:
+            st.violation("repr-after-use-not-evaluable:%s" % type(exc).__name__, "%s: after some validations: %r" % (label, exc), case, rank)
 
 
 def check_property(st, label, factory, rank=0):
